@@ -195,6 +195,10 @@ def run_entry(args):
                         vals.append({"name": n, "kind": kind, "value": None, "err": str(e)})
                 rec["result"] = "sat"
                 rec["model"] = vals
+                from .conc import schedule_of
+                sch = schedule_of(ex, m)
+                if sch is not None:
+                    rec["schedule"] = sch
                 res["violations"].append(rec)
             else:
                 rec["result"] = "unknown"
@@ -396,7 +400,7 @@ def run_check(check, tier="quick", seed=0, replay_only=None):
                 rdir = os.path.join(VERIF, "replay", pid)
                 os.makedirs(rdir, exist_ok=True)
                 rpath = os.path.join(rdir, "%s__%s_%s.json" % (ename, re.sub(r"[^A-Za-z0-9]+", "_", v["name"])[:60], re.sub(r"[^0-9]", "", (v.get("pos") or "").rsplit(":", 1)[-1])))
-                doc = {"property": pid, "entry": ename, "entry_fn": r["entry"], "obligation": v["name"], "kind": v["kind"], "at": v["pos"], "values": v["model"]}
+                doc = {"schedule": v.get("schedule"), "property": pid, "entry": ename, "entry_fn": r["entry"], "obligation": v["name"], "kind": v["kind"], "at": v["pos"], "values": v["model"]}
                 if e.get("replay", "native") == "native":
                     rep, out = native_replay(check, r["entry"], v["model"], workdir, ename)
                     doc["replay_kind"] = "native"
